@@ -48,6 +48,17 @@ type seqpairdist struct {
 	weights    []float64
 }
 
+// gammaPow returns x^(-1/alpha), the term of the gamma corrected distances
+// that replaces -log(x). If x is negative (saturation), the distance is not
+// defined: it returns NaN as the logarithm does, whereas math.Pow gives a finite
+// value when -1/alpha is an integer (alpha=1, alpha=0.5, ...)
+func gammaPow(x, alpha float64) float64 {
+	if x < 0 {
+		return math.NaN()
+	}
+	return math.Pow(x, -1./alpha)
+}
+
 func init2DFloat(dim1, dim2 int) [][]float64 {
 	out := make([][]float64, dim1)
 	for d := 0; d < dim1; d++ {
